@@ -4,7 +4,7 @@
 use crate::bridge::*;
 use crate::engine::*;
 use crate::model::*;
-use geo_traits::{CoordTrait, PointTrait};
+use geo_traits::{CoordTrait, LineStringTrait, MultiLineStringTrait, MultiPointTrait, PointTrait};
 use geo_types as gt;
 use serde_json::{json, Value};
 use shapefile::{Point, PointM, PointZ, Shape};
@@ -101,6 +101,8 @@ pub enum Case {
     Geo { kind: String, groups: Vec<Vec<Vec<(f64, f64)>>> },
     /// geo-traits on one point value
     Traits(MShape),
+    /// geo-traits views of a multipoint / polyline: every point reached through them
+    TraitsMulti(MShape),
 }
 
 impl Case {
@@ -108,6 +110,7 @@ impl Case {
         match self {
             Case::Shape(s) => json!({"kind": "shape", "shape": s.to_json()}),
             Case::Traits(s) => json!({"kind": "traits", "shape": s.to_json()}),
+            Case::TraitsMulti(s) => json!({"kind": "traits-multi", "shape": s.to_json()}),
             Case::Geo { kind, groups } => json!({"kind": "geo", "geometry": kind,
                 "groups": groups.iter().map(|g| g.iter().map(|r| r.iter().map(|(x, y)| json!([fjson(*x), fjson(*y)])).collect::<Vec<_>>()).collect::<Vec<_>>()).collect::<Vec<_>>()}),
         }
@@ -116,6 +119,7 @@ impl Case {
         match v.get("kind")?.as_str()? {
             "shape" => Some(Case::Shape(MShape::from_json(v.get("shape")?)?)),
             "traits" => Some(Case::Traits(MShape::from_json(v.get("shape")?)?)),
+            "traits-multi" => Some(Case::TraitsMulti(MShape::from_json(v.get("shape")?)?)),
             "geo" => {
                 let mut groups = vec![];
                 for g in v.get("groups")?.as_array()? {
@@ -265,6 +269,72 @@ pub fn run(case: &Case) -> Vec<(String, String)> {
                                     out.push((format!("geo:{}:round-trip", kind), format!("came back as {:?}, expected {:?}", got, want)));
                                 }
                             }
+                        }
+                    }
+                }
+            }
+        }
+        Case::TraitsMulti(m) => {
+            // every point reached through the multi-geometry views reports a
+            // dimension count all of whose coordinates can be read back
+            let lib = to_lib(m);
+            let mut pts: Vec<(P4, usize, Vec<Result<f64, String>>)> = vec![];
+            fn probe<C: CoordTrait<T = f64>>(c: &C) -> (usize, Vec<Result<f64, String>>) {
+                let d = c.dim().size();
+                (d, (0..d).map(|i| catch(|| c.nth_or_panic(i)).map_err(|p| p.msg)).collect())
+            }
+            macro_rules! via_points {
+                ($s:expr, $orig:expr) => {
+                    for (i, p) in MultiPointTrait::points($s).enumerate() {
+                        let c = PointTrait::coord(&p).unwrap();
+                        let (d, v) = probe(&c);
+                        pts.push(($orig[i], d, v));
+                    }
+                };
+            }
+            macro_rules! via_lines {
+                ($s:expr, $m:expr) => {
+                    for (li, l) in MultiLineStringTrait::line_strings($s).enumerate() {
+                        for (i, c) in l.coords().enumerate() {
+                            let (d, v) = probe(&c);
+                            pts.push(($m.parts[li].pts[i], d, v));
+                        }
+                    }
+                };
+            }
+            match &lib {
+                Shape::Multipoint(s) => via_points!(s, m.parts[0].pts),
+                Shape::MultipointM(s) => via_points!(s, m.parts[0].pts),
+                Shape::MultipointZ(s) => via_points!(s, m.parts[0].pts),
+                Shape::Polyline(s) => via_lines!(s, m),
+                Shape::PolylineM(s) => via_lines!(s, m),
+                Shape::PolylineZ(s) => via_lines!(s, m),
+                _ => {}
+            }
+            let has_z = m.ty.has_z();
+            let has_m = m.ty.carries_m();
+            for (orig, d, vals) in pts {
+                let mut fields = vec![orig[0], orig[1]];
+                if has_z {
+                    fields.push(orig[2]);
+                }
+                if has_m && d == fields.len() + 1 {
+                    fields.push(orig[3]);
+                }
+                if d != fields.len() {
+                    out.push((format!("{}:view:dimension-count", m.ty.name()), format!("a point of a {} reports {} dimensions", m.ty.name(), d)));
+                    break;
+                }
+                for (i, v) in vals.iter().enumerate() {
+                    match v {
+                        Ok(x) if x.to_bits() == fields[i].to_bits() => {}
+                        Ok(x) => {
+                            out.push((format!("{}:view:wrong-field", m.ty.name()), format!("coordinate {} reads {} expected {}", i, fshow(*x), fshow(fields[i]))));
+                            break;
+                        }
+                        Err(e) => {
+                            out.push((format!("{}:view:index-below-dimension-count-panics", m.ty.name()), format!("point reports {} dimensions but reading coordinate {} panics: {} (m = {})", d, i, e, fshow(orig[3]))));
+                            break;
                         }
                     }
                 }
@@ -559,6 +629,23 @@ fn traits_cases() -> Vec<Case> {
     v
 }
 
+fn traits_multi_cases() -> Vec<Case> {
+    let mut v = vec![];
+    for ty in [Ty::Multipoint, Ty::MultipointM, Ty::MultipointZ, Ty::Polyline, Ty::PolylineM, Ty::PolylineZ] {
+        for s in crate::structs::structures(ty, crate::structs::Scope::Reduced) {
+            v.push(Case::TraitsMulti(s.clone()));
+            for sl in crate::structs::slots(&[s.clone()]) {
+                for a in alphabet_for_dim(sl.dim) {
+                    let mut x = vec![s.clone()];
+                    crate::structs::apply(&mut x, sl, a);
+                    v.push(Case::TraitsMulti(x.remove(0)));
+                }
+            }
+        }
+    }
+    v
+}
+
 fn selftest() -> (u64, u64) {
     // RefGeo must distinguish a hole attached to the wrong outer, a reordered line, a dropped point
     let m = MShape { ty: Ty::Polygon, parts: vec![
@@ -598,6 +685,7 @@ pub fn check(tier: Tier) -> i32 {
     let mut cases = shape_cases(tier);
     cases.extend(geo_cases());
     cases.extend(traits_cases());
+    cases.extend(traits_multi_cases());
     let nb = (cases.len() + 255) / 256;
     let (agg, capped) = par_blocks(nb, None, |b, ctx, tick| {
         for c in &cases[b * 256..((b + 1) * 256).min(cases.len())] {
@@ -611,6 +699,7 @@ pub fn check(tier: Tier) -> i32 {
                 Case::Shape(m) => m.ty.name(),
                 Case::Geo { kind, .. } => kind,
                 Case::Traits(m) => m.ty.name(),
+                Case::TraitsMulti(m) => m.ty.name(),
             });
             ctx.lib_calls += 3;
             ctx.case_done(c.hash(), !matches!(c, Case::Shape(m) if m.ty.family() == Family::Point && false), oh.finish());
@@ -630,7 +719,7 @@ pub fn check(tier: Tier) -> i32 {
             tier,
             level: "model_checking",
             engine: "E2 enumerator on the real From/TryFrom impls between shapefile and geo-types values and the geo-traits accessors (library built with features geo-types + geo-traits)",
-            rule: "shapes: Point/PointM/PointZ with <= 2 special values from the per-dimension alphabets; Multipoint* of 1-3 points and Polyline* structures with one X/Y slot replaced by every value of F_xy; Polygon*: every role word of the outer-first language O I{0..2} (O I{0..2}){0..2} x ring templates {triangle cw/ccw, square cw/ccw, zero-area, open triangle} (all combinations up to 3 rings, a rotating choice above); multipatches: every kind vector of length 1-3 over the 6 kinds (ring-only ones convert, any strip / fan is refused); NullShape; geo-types: Point, Line, LineString, MultiLineString (1-3), MultiPoint (1-3), Polygon with 0-2 holes x templates, MultiPolygon of 1-3 polygons, Rect, Triangle, GeometryCollection; geo-traits: every Point/PointM/PointZ with <= 2 special values from the full alphabet (no-data, below-threshold, NaN measures included); every case is non-trivial",
+            rule: "shapes: Point/PointM/PointZ with <= 2 special values from the per-dimension alphabets; Multipoint* of 1-3 points and Polyline* structures with one X/Y slot replaced by every value of F_xy; Polygon*: every role word of the outer-first language O I{0..2} (O I{0..2}){0..2} x ring templates {triangle cw/ccw, square cw/ccw, zero-area, open triangle} (all combinations up to 3 rings, a rotating choice above); multipatches: every kind vector of length 1-3 over the 6 kinds (ring-only ones convert, any strip / fan is refused); NullShape; geo-types: Point, Line, LineString, MultiLineString (1-3), MultiPoint (1-3), Polygon with 0-2 holes x templates, MultiPolygon of 1-3 polygons, Rect, Triangle, GeometryCollection; geo-traits: every Point/PointM/PointZ with <= 2 special values from the full alphabet (no-data, below-threshold, NaN measures included), and every point of Multipoint*/Polyline* structures reached through the MultiPointTrait / MultiLineStringTrait views with one slot replaced by every value of its alphabet; every case is non-trivial",
             bounds: json!({"cases": cases.len(), "max_rings": 9, "max_patches": 3}),
             exhaustive: true,
             assumptions: vec![
